@@ -1,6 +1,6 @@
 """C02 - bound values are exactly a valid derivation of the command line."""
 import collections, random
-from vlib import core, specgen as g, refenum, groups as G
+from vlib import core, specgen as g, refenum, groups as G, matchtrace
 from props import refcommon as rc, groupcommon as gc
 
 PROP = "C02"
@@ -67,13 +67,20 @@ def run(tier, wd):
                                            "reference_derivations": len(acc), "library": gc.fmt(G.outcome(rs[0]))})
         if len(acc) > 1:
             ambiguous += 1
+    # (3) the same sentences with the matchers traced: every call of Matcher.Match the search made is validated by TLC against
+    #     Matchers.tla (token surgery, remaining arguments, values recorded by that very call)
+    ncalls, bad = matchtrace.validate(rep, wd, binpath, [p], specs2, [grp["members"][0] for grp in groups])
+    for text, obj in bad[:10]:
+        rep.violation(text, obj)
+    rep.cov["matcher_calls_validated"] = ncalls
+    rep.cov["evaluations"] += ncalls
     rep.cov["classes"] = dict(cnt)
     rep.cov["ambiguous_cases"] = ambiguous
     rep.cov["distinct_nontrivial"] = len(nontrivial)
     rep.cov["rule"] = ("(1) every spec of the family x every argument vector over the alphabet up to maxlen; (2) random sentences of further specs with "
                        "every occurrence in a random documented spelling/folding. For every case the library's per-variable sequences of Set calls "
                        "must be one of the derivations RefSemantics.tla admits; non-trivial = accepted with at least two bound tokens; "
-                       "ambiguous = the reference admits several derivations")
+                       "ambiguous = the reference admits several derivations; (3) every Matcher.Match call of those runs validated against Matchers.tla")
     rep.assumptions += ["standard program (see C01), all variables declared with a recording value type, so repeated values and their order are observed",
                         "verdict disagreements are C01's business and not reported here"]
     return rep.finish()
@@ -83,6 +90,16 @@ def replay(path, wd):
     import json
     with open(path) as f:
         o = json.load(f)["replay"]
+    if o.get("engine") == "matchtrace":
+        rep = core.Report(PROP, "quick", "model_checking")
+        import os
+        c = o["case"]
+        from vlib import specparse
+        spec = {"ast": specparse.parse(c["spec"], g.STD_PROG), "str": c["spec"]}
+        n, bad = matchtrace.validate(rep, wd, core.build_harness(), [g.STD_PROG], [spec], [{"si": 0, "env": c["env"], "argv": c["argv"]}])
+        for t, _ in bad:
+            print("replay:", t)
+        return 1 if bad else 0
     if o.get("engine") == "refgroups":
         return gc.rerun_replay(path, wd, law="oracle")
     return rc.rerun_replay(path, wd, is_violation)
